@@ -216,8 +216,11 @@ def run_tasks(sc):
     from statemachine import State, StateMachine
     parked = []
 
+    owners = {}
+
     async def gate():
         fut = asyncio.get_running_loop().create_future()
+        owners[id(fut)] = asyncio.current_task()
         parked.append(fut)
         await fut
 
@@ -239,24 +242,43 @@ def run_tasks(sc):
             log.append(("E", sender, seq))
 
     done = [False] * n
+    puts = []
 
     async def sender(i, sm):
-        for k in range(plan[i]):
-            if sc.get("same_events"):
-                await sm.send("go", sender=0, seq=0)      # every task sends the very same event
-            else:
-                await sm.send("go", sender=i, seq=k)
+        try:
+            for k in range(plan[i]):
+                if sc.get("same_events"):
+                    await sm.send("go", sender=0, seq=0)      # every task sends the very same event
+                else:
+                    await sm.send("go", sender=i, seq=k)
+        except asyncio.CancelledError:
+            pass                                              # this sender was cancelled while draining
         done[i] = True
+
+    flushed = []
+
+    async def flush(sm):
+        await sm.send("go", sender=8, seq=len(flushed))       # one more event after the cancellation
+        flushed.append(True)
 
     async def main():
         with warnings.catch_warnings():
             warnings.simplefilter("ignore")
             sm = M()
             await sm.activate_initial_state()
+        # the order in which events are put (by senders and by callbacks): observed on this engine object
+        orig_put = sm._engine.put
+
+        def put(td):
+            puts.append((td.kwargs.get("sender"), td.kwargs.get("seq")))
+            return orig_put(td)
+        sm._engine.put = put
         tasks = [asyncio.ensure_future(sender(i, sm)) for i in range(n)]
         pos = 0
         guard = 0
-        while not all(done) and guard < 3000:
+        cancelled = []
+        extra = []
+        while (not all(done) or any(not t.done() for t in extra)) and guard < 3000:
             guard += 1
             # quiescence: nothing more can run without opening a gate
             last = -1
@@ -269,8 +291,22 @@ def run_tasks(sc):
                 continue
             j = (schedule[pos] if pos < len(schedule) else 0) % len(parked)
             pos += 1
-            parked.pop(j).set_result(None)
-        for t in tasks:
+            fut = parked.pop(j)
+            if sc.get("cancel_at") is not None and pos > sc["cancel_at"] and not cancelled:
+                # the task that is draining (it is suspended inside a callback) gets cancelled, e.g. by a
+                # timeout around its send; then one more event is sent by a fresh task
+                cancelled.append(True)
+                opened = [e for e in log if e[0] == "B"][-1]
+                if not [e for e in log if e[0] == "E" and e[1:] == opened[1:]]:
+                    log.append(("E", opened[1], opened[2]))       # its block ends here
+                owner = owners[id(fut)]
+                owner.cancel()
+                for _ in range(30):                                # let the cancellation unwind the drainer
+                    await asyncio.sleep(0)
+                extra.append(asyncio.ensure_future(flush(sm)))
+                continue
+            fut.set_result(None)
+        for t in tasks + extra:
             await asyncio.wait_for(t, 5)
         return sm
     sm = asyncio.run(main())
@@ -287,7 +323,8 @@ def run_tasks(sc):
             open_ = None
     leftover = [(td.kwargs["sender"], td.kwargs["seq"]) for td in sm._engine._external_queue]
     return {"begins": [list(x) for x in begins if x[0] < 10], "nested": [list(x) for x in begins if x[0] >= 10],
-            "leftover": [list(x) for x in leftover], "returned": list(done), "overlap": overlap}
+            "leftover": [list(x) for x in leftover], "returned": list(done), "overlap": overlap,
+            "fifo": [list(x) for x in begins] == [list(x) for x in puts], "nputs": len(puts)}
 
 
 def run_impl(sc):
@@ -308,11 +345,19 @@ def coq_case(sc, obs):
         # asyncio: the interleaving is decided by the real event loop between gates; the model's claims
         # for Await granularity are checked directly on what happened
         n = len(sc["plan"])
+        if sc.get("cancel_at") is not None:
+            # the draining task was cancelled inside a callback: the lock must have been released - the event
+            # sent afterwards and everything queued meanwhile get processed, in put order, nothing left over
+            ok = (not obs["overlap"] and not obs["leftover"] and all(obs["returned"]) and obs.get("fifo"))
+            return "(mk6 false [] [] [] [] [])" if ok else "(mk6 false [] [] [((9, 9), 9)] [] [])"
         if sc.get("same_events"):
-            ok = (not obs["overlap"] and not obs["leftover"] and all(obs["returned"])
+            ok = (not obs["overlap"] and not obs["leftover"] and all(obs["returned"]) and obs.get("fifo")
                   and len(obs["begins"]) == sum(sc["plan"]))
             return "(mk6 false [] [] [] [] [])" if ok else "(mk6 false [] [] [((9, 9), 9)] [] [])"
-        ok = (not obs["overlap"] and not obs["leftover"] and all(obs["returned"])
+        # global FIFO (C06_nested_fifo): everything that was put - by a sender or by a running callback - is
+        # begun in put order; the nested send of sender 0's first event is processed exactly once
+        ok = (not obs["overlap"] and not obs["leftover"] and all(obs["returned"]) and obs.get("fifo")
+              and len(obs["nested"]) == (1 if (sc.get("nested") and sc["plan"][0] >= 1) else 0)
               and sorted(map(tuple, obs["begins"])) == sorted((i, k) for i in range(n) for k in range(sc["plan"][i]))
               and all([bb for bb in obs["begins"] if bb[0] == i] == [[i, k] for k in range(sc["plan"][i])] for i in range(n)))
         return "(mk6 false [] [] [] [] [])" if ok else "(mk6 false [] [] [((9, 9), 9)] [] [])"
@@ -373,9 +418,17 @@ def generate(rng, tier):
         plan = [rng.randint(1, 2) for _ in range(n)]
         t.append({"kind": "tasks", "plan": plan, "nested": rng.random() < 0.4, "same_events": rng.random() < 0.35,
                   "schedule": [rng.randrange(6) for _ in range(rng.randint(2, 20))]})
+    ncan = 40 if tier == "quick" else 800
+    for _ in range(ncan):
+        n = rng.randint(2, 4)
+        t.append({"kind": "tasks", "plan": [rng.randint(1, 2) for _ in range(n)], "nested": rng.random() < 0.3,
+                  "same_events": False, "cancel_at": rng.randint(0, 6),
+                  "schedule": [rng.randrange(6) for _ in range(rng.randint(2, 20))]})
     scs += t
     parts.append(("asyncio, 2-4 sender tasks x 1-2 events, callbacks awaiting gates resumed one at a time in random "
                   "schedule order", nt))
+    parts.append(("asyncio, the same with the draining task cancelled while suspended inside a callback and one "
+                  "more event sent afterwards", ncan))
     return scs, parts
 
 
